@@ -93,7 +93,6 @@ class Monitor:
         self.outstanding = []  # [(id, Deferred, ok)] returned by before-triggers, unfired
         self.firing = False  # between fireEvent() and the completion of the after phase
         self.in_fire_call = False
-        self.in_deferred_fire = False
         self.dec = list(case["decisions"])
         self.spec = {t["id"]: t for t in case["triggers"]}
         if api == "event":
